@@ -40,6 +40,7 @@ type Oblig struct {
 	Model   map[string]string
 	Output  string
 	Script  string
+	InstScript string
 }
 
 type Mem struct {
@@ -99,6 +100,7 @@ type FT struct {
 	auto    map[*ssa.BasicBlock][]*autoInv
 	topCon  *Contract
 	label   string // obligation name prefix when fn is nil (lemmas)
+	inQuant int
 	assignItems []*assignItem
 }
 
@@ -182,9 +184,53 @@ func (ft *FT) load(m *Mem, lv *LV) *Val {
 		name, s := compFor(lv, l)
 		arr := ft.memGet(m, name, s)
 		t := selectNested(mkSelect(arr, lv.Ref), idxs)
+		if gInt && l.Lift == 0 {
+			switch l.Kind {
+			case 'i', 'u':
+				t = ft.rangedDef("ld", t, inTypeRange2(l))
+			case 'l', 'c', 'o':
+				t = ft.rangedDef("ld", t, func(x Term) Term {
+					return mkAnd(Term{SBool, "(<= 0 " + x.T + ")"}, Term{SBool, fmt.Sprintf("(<= %s %d)", x.T, maxLen)})
+				})
+			}
+		}
 		v.L = append(v.L, t)
 	}
+	// slices read from memory: len <= cap (Go type invariant)
+	ls := leavesOf(lv.T)
+	if ft.inQuant == 0 {
+		for i, l := range ls {
+			if l.Kind == 'l' && l.Lift == 0 && i+1 < len(ls) && ls[i+1].Kind == 'c' {
+				cp := v.L[i+1]
+				v.L[i] = ft.rangedDef("ldlen", v.L[i], func(x Term) Term { return mkAnd(uLe(x, cp), uLe(cp, idxInt(maxLen))) })
+			}
+		}
+	}
 	return v
+}
+
+func inTypeRange2(l Leaf) func(Term) Term {
+	return func(x Term) Term { return inTypeRange(x, l.W, l.Kind == 'i') }
+}
+
+// rangedDef names a term and attaches a range fact to the name (int mode: values read from memory
+// lie in their type's range).
+func (ft *FT) rangedDef(hint string, t Term, rng func(Term) Term) Term {
+	if _, ok := intLitVal(t); ok {
+		return t
+	}
+	if ft.inQuant > 0 {
+		return t // the term mentions a bound variable: no global definition possible
+	}
+	key := "rd|" + t.T
+	if n, ok := ft.memSyms[key]; ok {
+		return n
+	}
+	n := ft.c.Fresh(hint, t.S)
+	ft.c.Assume(n, mkEq(n, t))
+	ft.c.Assume(n, rng(n))
+	ft.memSyms[key] = n
+	return n
 }
 
 func (ft *FT) store(m *Mem, lv *LV, v *Val) {
@@ -225,6 +271,19 @@ func (ft *FT) freshVal(hint string, t types.Type) *Val {
 	return v
 }
 
+// freshInput: a fresh value for a parameter / lemma variable / call result. A slice or string that is the
+// value itself (not nested in a struct) gets offset 0: its backing array is re-indexed so that the view
+// starts at 0. This is without loss of generality except for partially overlapping slice arguments,
+// which are assumed away (listed in the evidence).
+func (ft *FT) freshInput(hint string, t types.Type) *Val {
+	v := ft.freshVal(hint, t)
+	if isSlice(t) || isString(t) {
+		v.L[1] = idxInt(0)
+		ft.e.trust("slice/string arguments and call results are views starting at index 0 of their backing array (no partially overlapping slice arguments)")
+	}
+	return v
+}
+
 func (ft *FT) assumeTypeInv(v *Val) {
 	if len(v.L) == 0 {
 		return
@@ -239,13 +298,17 @@ func (ft *FT) assumeTypeInv(v *Val) {
 			continue
 		}
 		switch l.Kind {
+		case 'i', 'u':
+			if gInt {
+				ft.c.Assume(sym, inTypeRange(sym, l.W, l.Kind == 'i'))
+			}
 		case 'l':
-			ft.c.Assume(sym, app(SBool, "bvule", sym, idxInt(maxLen)))
+			ft.c.Assume(sym, uLe(sym, idxInt(maxLen)))
 			if i+1 < len(ls) && ls[i+1].Kind == 'c' {
 				ft.c.Assume(sym, app(SBool, "bvule", sym, v.L[i+1]))
 			}
 		case 'c', 'o':
-			ft.c.Assume(sym, app(SBool, "bvule", sym, idxInt(maxLen)))
+			ft.c.Assume(sym, uLe(sym, idxInt(maxLen)))
 		case 'r':
 			ft.c.Assume(sym, app(SBool, ">=", sym, intConst(0)))
 			ft.c.Assume(sym, app(SBool, "<", sym, intConst(allocBase)))
@@ -363,6 +426,17 @@ func (fr *frame) oblige(kind, text string, pos token.Pos, goal Term) {
 		Pos: ft.e.pos(pos), Hyp: fr.cur.pc, Goal: goal, Inline: fr.inl}
 	ft.obs = append(ft.obs, ob)
 	fr.cur.pc = ft.c.Define("pc", mkAnd(fr.cur.pc, goal))
+}
+
+// obligeAlways: like oblige but never skipped by the kind filter (soundness-critical checks).
+func (fr *frame) obligeAlways(kind, text string, pos token.Pos, goal Term) {
+	ft := fr.ft
+	had := ft.kinds[kind]
+	ft.kinds[kind] = true
+	fr.oblige(kind, text, pos, goal)
+	if !had {
+		delete(ft.kinds, kind)
+	}
 }
 
 func (fr *frame) assume(t Term) {
